@@ -110,9 +110,12 @@ class AMTSingle(AMTBase):
 class AMTParenthesisBase(AMTBase):
     """插入语节点的基类"""
 
+    BRACKET_OPEN = "("  # 插入语的开始标记
+    BRACKET_CLOSE = ")"  # 插入语的结束标记
+
     def __init__(self, children: List[AMTBase], marks: int = 0):
         self.marks = marks
-        self.source = "(" + "".join(token.source for token in children) + ")"
+        self.source = self.BRACKET_OPEN + "".join(token.source for token in children) + self.BRACKET_CLOSE
         self.children: List[AMTBase] = children
 
     def equals(self, other: Union[str, AMTMark]) -> Union[bool, int]:
@@ -143,3 +146,6 @@ class AMTParenthesis(AMTParenthesisBase):
 
 class AMTSlice(AMTParenthesisBase):
     """抽取插入语节点"""
+
+    BRACKET_OPEN = "["
+    BRACKET_CLOSE = "]"
